@@ -56,7 +56,7 @@ def main():
             meta = json.load(open(os.path.join(d, 'meta.json'))) if os.path.exists(os.path.join(d, 'meta.json')) else {}
             demo_name = 'demo.py' if os.path.exists(os.path.join(d, 'demo.py')) else 'demo_test.py'
             demo_src = open(os.path.join(d, demo_name)).read()
-            demo_src = re.sub(r"(['\"])/tmp/seed-[a-z0-9-]+?(/?)\1", "__import__('os').environ.get('CHERRYPY_REPO', '/repo')",
+            demo_src = re.sub(r"(['\"])/tmp/seed\d*-[a-z0-9-]+?(/?)\1", "__import__('os').environ.get('CHERRYPY_REPO', '/repo')",
                               demo_src)
             dst = os.path.join(VERIF, 'seeded', sid)
             os.makedirs(dst, exist_ok=True)
